@@ -203,7 +203,13 @@ func runLife(c *Ctx, sc lifeSc, seedLabel ...interface{}) (out lifeOutcome) {
 			if mc.Closed() {
 				add("C07", "new-connection-torn-down", fmt.Sprintf("cycle %d: the fresh connection was closed by the client before it had registered (nothing had ended it)", cycle))
 			} else if ds.Dead {
-				add("C07", "registration-never-sent|"+ds.Signature, fmt.Sprintf("cycle %d: no NICK/USER on the new connection; dead state %s", cycle, ds.Signature))
+				var evs []string
+				all := lg.Events()
+				for _, e := range all[max(0, len(all)-14):] {
+					evs = append(evs, fmt.Sprintf("%d:%s(%s)", e.Tick, e.Kind, e.S))
+				}
+				add("C07", "registration-never-sent|"+ds.Signature, fmt.Sprintf("cycle %d: no NICK/USER on the new connection; dead state %s; lines written on it: %q; dials so far: %d; connections: %d; Connected()=%v; last events: %v",
+					cycle, ds.Signature, mc.Lines(), len(s.EP.Dials()), len(s.EP.Conns()), conn.Connected(), evs))
 				out.Findings[len(out.Findings)-1].Dump = ds.Dump
 			} else {
 				out.Inconclusive = fmt.Sprintf("cycle %d: registration not seen (%s)", cycle, ds.Reason)
